@@ -494,6 +494,24 @@ def oracle(c):
             return (f"sol:reader:tuples:{n}", f"{bid!r} read back as {got}")
         if back.benchmark_id != bid or fields_of(back.scenario_id) != fields_of(sid):
             return (f"sol:reader:id:{n}", f"{bid!r} read back as {back.benchmark_id!r}")
+        # what was read is a value of its own: edited in place (a later revision of the map), it does not reach what the
+        # same document reads back to the next time
+        doc = CommonRoadSolutionWriter(sol).dump()
+        back.scenario_id.map_id = back.scenario_id.map_id + 1
+        back.scenario_id.configuration_id = (back.scenario_id.configuration_id or 0) + 1
+        try:
+            again = CommonRoadSolutionReader.fromstring(doc)
+        except Exception as e:  # noqa
+            return (f"sol:reader:raises:{exc_name(e)}:{n}", f"reading the solution {bid!r} a second time raises {e!r}")
+        if again.benchmark_id != bid or fields_of(again.scenario_id) != fields_of(sid):
+            return (f"sol:reader:id-after-edit:{n}", f"{bid!r} read, the scenario id of the result edited in place, the "
+                                                     f"same document read again: {again.benchmark_id!r}")
+    # the same for the id parser itself
+    psid.map_id = psid.map_id + 1
+    warned2, r2 = parse_bid(bid)
+    if r2[0] != "ok" or fields_of(r2[1][2]) != fields_of(sid):
+        return (f"sol:parse:after-edit:{n}", f"_parse_benchmark_id({bid!r}) after its earlier result was edited in place: "
+                                             f"{r2[1][2] if r2[0] == 'ok' else r2}")
     return None
 
 
